@@ -630,8 +630,12 @@ def represented(R, a):
 
 class filter_clashing_atoms_c(filter_single_c):
     """the whole function, any number of models (the multi-model branch calls the function itself: this contract is used for
-    the recursive calls - partial correctness, termination of the recursion is NOT proved)"""
+    the recursive calls).  Termination of the recursion: `decreases` - the measure is 0 for a list whose atoms all carry one
+    model (in particular the empty list) and 1 otherwise; a self-call happens only when the dict of models has more than one
+    key (measure 1) and passes the atoms of ONE model (measure 0): obligation call[..]->filter_clashing_atoms.decreases, so
+    the recursion is at most one level deep"""
     requires = []
+    decreases = "ite(forall(lambda t: implies(0 <= t and t < len(atoms), atoms[t].model == atoms[0].model)), 0, 1)"
     ensures = [
         "G_from_input(result, atoms)",
         "G_one_per_slot(result)",
@@ -658,6 +662,11 @@ class filter_clashing_atoms_c(filter_single_c):
          "do": ["assert exists(lambda t: 0 <= t and t < len(atoms) and atoms[t].model == model)"]},
         {"when": "before", "at": "unique_atoms = {}", "label": "one-model",
          "do": ["assert forall(lambda t: implies(0 <= t and t < len(atoms), atoms[t].model == atoms[0].model))"]},
+        # termination measure of the current activation: more than one key in `models` means two atoms of different models
+        {"when": "before", "at": "result: List[Atom] = []", "label": "termination-two-models",
+         "do": ["assert list(models.keys())[0] != list(models.keys())[1]",
+                "assert exists(lambda t: 0 <= t and t < len(atoms) and atoms[t].model == list(models.keys())[0]) and exists(lambda u: 0 <= u and u < len(atoms) and atoms[u].model == list(models.keys())[1])",
+                "assert exists(lambda t: 0 <= t and t < len(atoms) and atoms[t].model != atoms[0].model)"]},
     ]
 
 
